@@ -42,8 +42,15 @@ class Binding(object):
         if v == BAD:
             raise Refused()
 
+    def new(self, cls):
+        return cls(validate_fn=self.validator)
+
+    @staticmethod
+    def is_refusal(e):
+        return False
+
     def make(self, cls, order, vals):
-        m = cls(validate_fn=self.validator)
+        m = self.new(cls)
         # constructor path is itself exercised by the histories; here build the pre-state through
         # the plain store, then verify it before use
         for k in order:
@@ -157,7 +164,36 @@ class Binding(object):
         except MachineryError:
             raise
         except Exception as e:
+            if self.is_refusal(e):
+                return ['Refused']
             return [type(e).__name__]
+
+
+class ColumnsBinding(Binding):
+    """The columns of a Grid (grid.column): the same ordered map, whose values are column metadata.  The abstract
+    value v is the metadata {'t': v} handed over as a plain dict; the map keeps it in a metadata object bound to
+    the grid, and the validator is the grid's version gate (BAD = a 3.0-only value in a grid declared 2.0)."""
+
+    def __init__(self, hs):
+        Binding.__init__(self, hs)
+        self.hs = hs
+        self.GridColumns = 'GridColumns'
+
+    def new(self, cls):
+        return self.hs.Grid(version='2.0').column
+
+    def val(self, v):
+        return {'t': self.hs.NA if v == BAD else Binding.val(self, v)}
+
+    def unval(self, x):
+        if isinstance(x, (dict, self.SortableDict)):
+            t = dict(x.items()).get('t', 'no_t')
+            return BAD if t is self.hs.NA else Binding.unval(self, t)
+        return x
+
+    @staticmethod
+    def is_refusal(e):
+        return isinstance(e, ValueError) and 'requires version' in str(e)
 
 
 def pairs(v):
@@ -199,8 +235,8 @@ def replay_edges(rep, b, edges, classes):
         groups.setdefault(key, (pre_o, pre_v, e['op'], []))[3].append(out)
     n = 0
     for key, (pre_o, pre_v, o, allowed) in groups.items():
-        for cname, cls in classes:
-            if o['name'] in ('append', 'append_default', 'extend') and cname == 'SortableDict':
+        for cname, b, cls in classes:
+            if o['name'] in ('append', 'append_default', 'extend') and cname != 'MetadataObject':
                 continue
             forms = ['list']
             if o['name'] == 'extend' and len(set(k for k, _ in o['items'])) == len(o['items']):
@@ -227,7 +263,7 @@ def replay_edges(rep, b, edges, classes):
 
 def random_history(rng, b, cls, nkeys, length):
     """Drive the real class with a seeded random program; log op, result, projected state."""
-    m = cls(validate_fn=b.validator)
+    m = b.new(cls)
     evs = []
     meta = cls is b.MetadataObject
     names = ['add_item'] * 6 + ['setitem'] * 3 + ['delitem', 'pop', 'pop_default', 'pop_at', 'popitem',
@@ -365,7 +401,9 @@ def run(tier):
         edges = g.json_lines()
         if len(edges) < 1000 or len(edges) != g.generated - 1:
             raise MachineryError('edge generation incomplete: %d edges, %d generated' % (len(edges), g.generated))
-        classes = [('SortableDict', b.SortableDict), ('MetadataObject', b.MetadataObject)]
+        bc = ColumnsBinding(hs)
+        classes = [('SortableDict', b, b.SortableDict), ('MetadataObject', b, b.MetadataObject),
+                   ('GridColumns', bc, bc.GridColumns)]
         n, ngroups = replay_edges(rep, b, edges, classes)
         rep.traces += n
         rep.extra['edges_replayed'] = n
@@ -377,8 +415,8 @@ def run(tier):
         nh, ln, nk = (40, 300, 12) if tier == 'quick' else (400, 400, 14)
         traces = []
         for i in range(nh):
-            cls = classes[i % 2][1]
-            traces.append(random_history(rng, b, cls, nk, ln))
+            cname, bi, cls = classes[i % 3]
+            traces.append(random_history(rng, bi, cls, nk, ln))
         verdict = judge_traces(rep, work, traces, 'random')
         rep.traces += len(traces)
         rep.extra['random_histories'] = {'count': nh, 'length': ln, 'keys': nk}
@@ -388,7 +426,7 @@ def run(tier):
             for (l, clause) in verdict[i]:
                 rep.violation(trace_features(tr, l, clause),
                               {'history_prefix': tr[max(0, l - 6):l], 'clause': clause, 'event': l,
-                               'class': 'MetadataObject' if i % 2 == 0 else 'SortableDict'})
+                               'class': classes[(i - 1) % 3][0]})
         selftest_binding(rep, work, traces, verdict)
         # (C') the operation sequences the repository's own test-suite performs on its ordered maps
         import rectest
@@ -397,7 +435,7 @@ def run(tier):
         for f, d in rectest.judge_maps(rep, work, rec):
             rep.violation(f, d)
     rep.rule = ('edges: every <<pre-state, operation+arguments>> pair of the bounded SDict model, replayed on '
-                'SortableDict and MetadataObject, distinct by (class, pre-state, op); histories: seeded random '
+                'SortableDict, MetadataObject and the column map of a Grid (grid.column), distinct by (class, pre-state, op); histories: seeded random '
                 'programs judged event by event by Trace_SDict')
     rep.exhaustive = True
     rep.assumptions = ['keys are strings k01.. (sorted like the model integers); values are small ints / MARKER',
@@ -415,6 +453,8 @@ def replay(path):
         d = json.load(f)
     c = d['case']
     with Work('c16r') as work:
+        if c.get('class') == 'GridColumns':
+            b = ColumnsBinding(hs)
         if 'op' in c:
             cls = getattr(b, c['class'])
             pre = c['pre_items']
@@ -428,7 +468,7 @@ def replay(path):
             evs = c['history_prefix']
             first = evs[0]
             cls = b.MetadataObject
-            m = cls(validate_fn=b.validator)
+            m = b.new(cls)
             # rebuild the state before the first kept event from the event before it (if any)
             new = []
             for e in evs:
